@@ -157,6 +157,8 @@ pub fn run_trk(line: &str) -> String {
     let peers: Vec<usize> = if t[2] == "-" { vec![] } else { t[2].split(',').map(|x| x.parse().unwrap()).collect() };
     let interested: usize = t[3].parse().unwrap();
     let with_kill = t.get(4).map(|x| *x == "kill").unwrap_or(false);
+    // 'late': the manager is busy elsewhere and reads the tracker channel only after everything was queued
+    let late = t.get(4).map(|x| *x == "late").unwrap_or(false);
     let rt = tokio::runtime::Builder::new_current_thread().enable_all().start_paused(true).build().unwrap();
     let r = guarded(|| {
         rt.block_on(async {
@@ -192,12 +194,16 @@ pub fn run_trk(line: &str) -> String {
             // does not come back within half a (virtual) second while the tracker keeps failing is blocked
             // command k (0-based) is sent at k seconds; a manager that is not blocked has handled it right then
             let t0 = tokio::time::Instant::now();
+            if late {
+                tokio::time::sleep(std::time::Duration::from_millis(1000 * n as u64 + 500)).await;
+            }
             for k in 0..(n + 1) {
+                let before = t0.elapsed().as_millis() as i64;
                 match tokio::time::timeout(std::time::Duration::from_millis(3000), s.verif_pump_tracker()).await {
                     Ok(true) => {
-                        let late = t0.elapsed().as_millis() as i64 - 1000 * k as i64;
-                        out.push(if late.abs() < 100 { "OK" } else { "BLOCKED" });
-                        if late.abs() >= 100 {
+                        let lateness = if late { t0.elapsed().as_millis() as i64 - before } else { t0.elapsed().as_millis() as i64 - 1000 * k as i64 };
+                        out.push(if lateness.abs() < 100 { "OK" } else { "BLOCKED" });
+                        if lateness.abs() >= 100 {
                             break;
                         }
                         // meanwhile the session keeps serving: a connection that ends while the tracker is still
